@@ -167,7 +167,7 @@ def _setup(ctx, state):
     # (without the extra node at r = 0 the solution is not defined below the first radial node: no near-centre point then)
     if (g.get("opts") or {}).get("include_origin") is not False:
         state["pts0"][0] = c + 1e-4 * u1 / np.linalg.norm(u1)
-    state["pts0"][1] = c + rr.uniform(25.0, 60.0) * u2 / np.linalg.norm(u2)
+    state["pts0"][1] = c + (rr.uniform(6.0, 12.0) if g.get("far_inside") else rr.uniform(25.0, 60.0)) * u2 / np.linalg.norm(u2)
     state["pts"] = state["pts0"].copy()  # the caller's evaluation points: ONE array handed to every returned potential
     state["pts_b0"] = c + np.random.RandomState(g["pseed"] + 1).uniform(-2.0, 2.0, size=(12, 3))
     state["pts_b"] = state["pts_b0"].copy()
@@ -206,9 +206,21 @@ def _op_solve(ctx, op, state):
     calls0 = ctx.rng.calls
     params = state["params"] if o.get("shared_params", True) else dict(state["params0"])
     kw = dict(ctx.spec["grid"].get("opts") or {})
-    if kw.pop("exact_boundary", False):
-        # the asymptotic value handed in by the caller instead of being integrated: total charge * sqrt(4 pi)
-        kw["boundary"] = float(sum(co for kind, co, _ in spec if kind == "s") * np.sqrt(4 * np.pi))
+    bscale = kw.pop("boundary_scale", None)
+    shift = 0.0
+    if kw.pop("exact_boundary", False) or bscale is not None:
+        # the asymptotic value handed in by the caller instead of being integrated: total charge * sqrt(4 pi) - or a
+        # multiple of it (0, 1/2, 2): the l = 0 solution then shifts by the constant (b - b0) Y00 / R, R = outermost node
+        q = float(sum(co for kind, co, _ in spec if kind == "s"))
+        sc = 1.0 if bscale is None else float(bscale)
+        kw["boundary"] = float(sc * q * np.sqrt(4 * np.pi))
+        if bscale is not None:
+            ag = g.atgrids[0] if hasattr(g, "atgrids") else g
+            rad = np.asarray(ag.rgrid.points)
+            cut = kw.get("remove_large_pts", 1e6)
+            r_out = float(rad.max() if cut is None else rad[rad <= cut].max())
+            shift = (sc - 1.0) * q / r_out
+            ctx.probes.hit("explicit-boundary-value:%g" % sc)
     held = {}
 
     def call():
@@ -223,7 +235,7 @@ def _op_solve(ctx, op, state):
     if oc[0] == "ok" and not np.array_equal(np.asarray(held["first_after"], dtype=float), held["keep"], equal_nan=True):
         ctx.violate("result-overwritten", "solve", which, "the array returned by the potential changed when the potential was evaluated again at other points")
     if oc[0] == "ok":
-        ex_b = _potential(_dens_spec(ctx, which), state["pts_b0"], c)
+        ex_b = _potential(_dens_spec(ctx, which), state["pts_b0"], c) + shift
         eb = float(np.max(np.abs(np.asarray(held["second"], dtype=float) - ex_b))) / max(1.0, float(np.max(np.abs(ex_b))))
         if not np.isfinite(eb) or eb > _acc_bound(ctx):
             ctx.violate("accuracy", "solve", which, f"second evaluation of the returned potential (other points) off by {eb:.3g}")
@@ -237,7 +249,7 @@ def _op_solve(ctx, op, state):
     if ndraw:
         ctx.probes.hit("radial-solves-started-from-seam-draw", ndraw)
         ctx.states.add(f"{which}:{beh}")
-    ex = _potential(spec, state["pts0"], c)
+    ex = _potential(spec, state["pts0"], c) + shift
     scale = max(1.0, float(np.max(np.abs(ex))))
     acc = float(np.max(np.abs(v - ex))) / scale
     ctx.stats["acc"] = max(ctx.stats["acc"], acc)
@@ -328,7 +340,16 @@ def _op_robust(ctx, op, state):
     mark = len(ctx.store.fired_log)
     kw = {"ode_params": state["params"]} if o.get("shared_params", True) else {}
     gopts = dict(ctx.spec["grid"].get("opts") or {})
-    if gopts.pop("exact_boundary", False) and not o.get("split2"):
+    bscale = gopts.pop("boundary_scale", None)
+    rshift = 0.0
+    if bscale is not None and not o.get("split2"):
+        qs = float(sum(co for kind, co, _ in smooth if kind == "s"))
+        kw["boundary"] = float(bscale * qs * np.sqrt(4 * np.pi))
+        ag = g.atgrids[0] if hasattr(g, "atgrids") else g
+        rad = np.asarray(ag.rgrid.points)
+        cut = gopts.get("remove_large_pts", 1e6)
+        rshift = (float(bscale) - 1.0) * qs / float(rad.max() if cut is None else rad[rad <= cut].max())
+    if gopts.pop("exact_boundary", False) and not o.get("split2") and bscale is None:
         # boundary value of the *residual* the robust solver hands to the BVP solver: charge of the smooth part
         # (with split2 the residual is what is left after the NNLS fit, whose charge the caller does not know)
         kw["boundary"] = float(sum(co for kind, co, _ in smooth if kind == "s") * np.sqrt(4 * np.pi))
@@ -351,7 +372,7 @@ def _op_robust(ctx, op, state):
         ctx.violate("robust-raise", "robust", f"{sig}:{type(oc[1]).__name__}", f"solve_poisson_robust raised {oc[1]!r} with no fault active")
         return
     v = np.asarray(oc[1], dtype=float)
-    ex = _potential(spec, state["pts0"], c)
+    ex = _potential(spec, state["pts0"], c) + rshift
     scale = max(1.0, float(np.max(np.abs(ex))))
     err = float(np.max(np.abs(v - ex))) / scale
     if kind == "core" and not o.get("split2"):
@@ -375,7 +396,7 @@ def _op_robust(ctx, op, state):
     del state["held_pots"][:-3]
     if kind == "core+smooth" and "rho1" in state["results"] and all(t[0] == "s" for t in ctx.spec["dens"]["rho1"]):
         # robust = analytic core + numerical residual: agrees with the plain solver on the smooth part
-        d = float(np.max(np.abs(v - _potential(core, state["pts0"], c) - state["results"]["rho1"]))) / scale
+        d = float(np.max(np.abs(v - _potential(core, state["pts0"], c) - state["results"]["rho1"]))) / scale if bscale is None or not o.get("split2") else 0.0
         ctx.probes.hit("robust-vs-plain-compared")
         # without split2 the robust solver hands exactly the smooth part to the same BVP solver: tight agreement.  With
         # split2 most of it is solved analytically instead, so the two only agree to the plain solver's own accuracy.
@@ -500,6 +521,10 @@ class PoissonSeamEngine:
             opts["include_origin"] = False
         if rng.random() < 0.25:
             opts["exact_boundary"] = True
+        if rng.random() < 0.2:
+            # an explicit boundary value other than the natural one, with a modest outer radius so that the shift shows
+            opts = {"boundary_scale": rng.choice([0.0, 0.0, 0.5, 2.0]), "remove_large_pts": rng.choice([20.0, 30.0])}
+            grid["far_inside"] = True
         grid["opts"] = opts
         grid["as_molgrid"] = rng.random() < 0.25
         ri = rng.choice([[500.0, 1e-3], [1000.0, 1e-4], [300.0, 1e-3]])
